@@ -363,6 +363,7 @@ class ILTTranslation:
         body = strip_doc(fn.body)
         texts = [un(s) for s in body]
         self.ratfun_line = fn.lineno
+        self.ds_dispatch_checks_delay = 'sexpr.delay == 0' in un(fn)
 
         def idx(pred, what):
             hits = [i for i, s in enumerate(body) if pred(s)]
@@ -373,7 +374,8 @@ class ILTTranslation:
         # fixed statements the hand model relies on, in this order
         fixed = [
             "sexpr = Ratfun(expr, s)",
-            "if kwargs.get('damped_sin', False):\n    if sexpr.degree == 2:\n        return self.do_damped_sin(sexpr, s, t)",
+            ("if kwargs.get('damped_sin', False):\n    if sexpr.degree == 2:\n        return self.do_damped_sin(sexpr, s, t)",
+             "if kwargs.get('damped_sin', False):\n    if sexpr.degree == 2 and sexpr.delay == 0:\n        return self.do_damped_sin(sexpr, s, t)"),
             "damping = kwargs.get('damping', None)",
             "(Q, R, P, O, delay, undef) = sexpr.as_QRPO(damping)",
             "if delay != 0:\n    self.error('Unhandled delay %s' % delay)",
@@ -385,8 +387,12 @@ class ILTTranslation:
             "return (cresult, uresult)",
         ]
         pos = -1
+        fixed_nz = []
         for fx in fixed:
-            hits = [i for i, tx in enumerate(texts) if nz(tx) == nz(fx)]
+            alts = fx if isinstance(fx, tuple) else (fx,)
+            fixed_nz += [nz(a) for a in alts]
+            hits = [i for i, tx in enumerate(texts) if nz(tx) in [nz(a) for a in alts]]
+            fx = alts[0]
             if len(hits) != 1 or hits[0] <= pos:
                 fail(fn, 'ratfun skeleton: statement missing, duplicated or out of order: ' + fx.split('\n')[0])
             pos = hits[0]
@@ -411,7 +417,7 @@ class ILTTranslation:
         lp = body[il]
         expect(un(lp.iter) == 'range(len(R))' and not lp.orelse, lp, 'range of the m loop')
         for i, s in enumerate(body):
-            if nz(texts[i]) in [nz(x) for x in fixed] or i in (iq, il) or allowed_extra(s):
+            if nz(texts[i]) in fixed_nz or i in (iq, il) or allowed_extra(s):
                 continue
             fail(s, 'ratfun skeleton: unexpected statement')
         L = strip_doc(lp.body)
